@@ -356,6 +356,9 @@ func runC08(p *load.Program, r *core.Report) {
 
 	// ---- S5 a disabled child stays down
 	c08DisabledStaysDown(p, r)
+	// ---- S6..S9
+	c08Endings(p, r, machines)
+	c08Bookkeeping(p, r, machines)
 
 	// ---- S4
 	rule4 := "C08.S4 shutdown-bookkeeping"
